@@ -707,7 +707,47 @@ fn spawn_worker(tier: Tier, shard: u64, nshards: u64, from: u64, to: u64, every:
     r
 }
 
+/// A caller may raise `max_headers` as far as he likes: a head with that many fields is then
+/// either delivered or refused, never a panic (the header map of the `http` crate stops growing at
+/// 24 576 distinct names).
+fn big_limit_cells(ctx: &Ctx) -> u64 {
+    let mut n = 0;
+    for (limit, fields, distinct) in [(40_000usize, 24_576usize, true), (40_000, 24_577, true), (40_000, 33_000, true), (40_000, 33_000, false), (usize::MAX, 40_000, true)] {
+        for uniform in [None, Some(4096usize)] {
+            n += 1;
+            let mut w = b"HTTP/1.1 200 OK\r\n".to_vec();
+            for i in 0..fields {
+                if distinct {
+                    w.extend_from_slice(format!("x-h{i}: v\r\n").as_bytes());
+                } else {
+                    w.extend_from_slice(b"x-h: v\r\n");
+                }
+            }
+            w.extend_from_slice(b"Content-Length: 2\r\n\r\nok");
+            let mut script = Script::plain(w);
+            script.policy.uniform = uniform;
+            let _world = World::single(script, false);
+            let res = guarded(|| attohttpc::get("http://h.test/big").max_headers(limit).send().and_then(|r| r.bytes()));
+            if let Err(p) = res {
+                ctx.violation(
+                    "C05:panic",
+                    format!(
+                        "max_headers({limit}) and a response head with {fields} fields ({}): send() panicked: {}",
+                        if distinct { "all names distinct" } else { "one name" },
+                        p.chars().take(160).collect::<String>()
+                    ),
+                    json!({"engine": "c05", "big_limit": true}),
+                    n,
+                );
+            }
+        }
+    }
+    n
+}
+
 pub fn c05(ctx: &Ctx) -> Report {
+    let n_big = big_limit_cells(ctx);
+    ctx.count("raised_max_headers_cells", n_big);
     let space = Space::new(ctx.tier);
     let total = space.total();
     let nshards = 16u64;
@@ -793,6 +833,15 @@ pub fn c05(ctx: &Ctx) -> Report {
 }
 
 pub fn replay(v: &Value) -> i32 {
+    if v["case"]["big_limit"] == true {
+        let ctx = Ctx::new("C05", Tier::Quick);
+        big_limit_cells(&ctx);
+        let vs = ctx.drain_violations();
+        for (v, n) in &vs {
+            println!("{}: {} ({n} cases)", v.signature, v.what);
+        }
+        return if vs.is_empty() { 0 } else { 1 };
+    }
     let c: Case = serde_json::from_value(v["case"]["case"].clone()).expect("case");
     println!("case {}: route {:?} uniform {:?} terminal {:?}", c.label, c.route, c.uniform, c.terminal);
     println!("wire: \"{}\"  repeat: {:?}", esc(&c.wire), c.repeat.as_ref().map(|r| esc(r)));
